@@ -464,6 +464,25 @@ inline void apply(World &w, const Op &op) {
         chk_noalloc(!big0 && !tbig && !w.big[i], nm);
       }
     } break;
+    case MERGE_OTHER2: {
+#if CFG_KIND == 1
+      // SmallSet of another N, another comparator type and another backing-set type
+      const int mask = op.a;
+      OtherS2 t;
+      std::set<int, OtherMCmp> tm;
+      fill_keys(t, tm, mask_keys(mask));
+      const bool tbig = (int)tm.size() > kOther2N;
+      std::vector<int> order;
+      for (auto it = t.begin(); it != t.end(); ++it) order.push_back(E::val(*it));
+      win([&] { SS.merge(t); });
+      FCHK; unexpected();
+      model_merge(m, tm, order);
+      if (sorted_vals(t) != sorted_model(tm)) vf::fail(PT(), "merge(other comparator): the source keeps the wrong elements");
+      if (tbig) w.big[i] = true;
+      upd_big(i);
+      chk_noalloc(!big0 && !tbig && !w.big[i], nm);
+#endif
+    } break;
     case SWAP_MEMBER:
     case SWAP_FREE: {
       const int j = op.j;
